@@ -3,5 +3,5 @@ CONSTANTS Design = "copy"
  MaxResp = 3
  MaxSteps = 5
  KindsUsed <- AllKinds
-INVARIANTS Emit L2ImpliesL1
+INVARIANTS Emit EmitConc L2ImpliesL1
 CHECK_DEADLOCK FALSE
